@@ -31,7 +31,7 @@ LEVEL_TEXT = 'Held on number classes x decimal_places 0..12 x relabelling x comm
 RULE = ("per case one formatter configuration (decimal_places 0..12, axis relabelling, comment style, "
         "line ending) and 30-40 emitting commands covering every builder command, numeric arguments from "
         "the classes {+-0, subnormal, 1 ulp around k*10^-dp, 1 ulp around rounding ties, 10^k and 10^k+-ulp "
-        "up to 1e15, ints up to 2^53 (|v| <= 1e15), numpy float64/float32/int64, NaN/+-inf, random}; "
+        "up to 1e15, ints up to 2^53 (|v| <= 1e15), bools, numpy float64/float32/int64, NaN/+-inf, random}; "
         "distinct = (number class, decimal_places, entry point)")
 ASSUMPTIONS = [
     "block grammar: harness.wire.Lexer (LABEL = letters, NUMBER = -?digits(.digits)?, comment per configured style)",
@@ -63,8 +63,10 @@ def number(rng, dp, nonneg=False, nonfinite_p=0.08, numpy_ok=False, limit=1e15):
             return rng.choice([np.float32("nan"), np.float32("inf"), np.float16("-inf"), np.float64("nan")]), "nonfinite:np"
         return rng.choice([NAN, INF, -INF]), "nonfinite"
     unit = 10.0 ** -dp
-    cls = rng.choice(["zero", "subnormal", "grid", "tie", "pow10", "int", "random", "small", "big", "np"])
-    if cls == "zero":
+    cls = rng.choice(["zero", "subnormal", "grid", "tie", "pow10", "int", "random", "small", "big", "np", "bool"])
+    if cls == "bool":
+        v = rng.choice([True, True, False])     # a flag used as a number (bool is an int): words "1" / "0"
+    elif cls == "zero":
         v = rng.choice([0.0, -0.0, 0])
     elif cls == "subnormal":
         v = rng.choice([5e-324, -5e-324, 2.2e-308, 1e-310])
